@@ -316,6 +316,12 @@ func c17DeepTemplate(r *Rand, depth int) string {
 			})
 		}
 		kind := r.Intn(7)
+		if kind == 4 && lvl < depth-1 {
+			// @reduce feeds its body its own previous RESULT ({0} = accumulator): above the two innermost levels every
+			// enclosing fan-out multiplies the accumulator in every round (fan-out^depth per round; the real code and
+			// the model both need minutes, the watchdog answers `hang`) - the geometric-growth family of C08's known finding
+			kind = 1
+		}
 		if kind == 5 && lvl != depth {
 			// @for applies its body to its own previous RESULT: anywhere but innermost the value would grow
 			// with every round of every enclosing level (the real code needs minutes for such a template)
